@@ -249,9 +249,11 @@ impl<'r> RequestContext<'r> {
 
 fn handle_connection(stream: &TcpStream, config: &Arc<HandlerConfig>) -> io::Result<()> {
     let mut response = ResponseHandle::new(stream);
+    // bytes of the next request that were read together with the previous one
+    let mut carry = Vec::new();
 
     loop {
-        let keep_alive = handle_one_request(stream, &mut response, config)?;
+        let keep_alive = handle_one_request(stream, &mut response, config, &mut carry)?;
         if !keep_alive {
             return Ok(());
         }
@@ -266,9 +268,12 @@ thread_local! {
 
 /// Read request head into a thread-local uninitialized buffer and parse it.
 /// Thread-local storage is used since each thread handles exactly one request at once.
+/// `carry`: bytes of this request that were already taken from the connection (read beyond the end of the previous
+/// request); they come first.
 fn read_request<'a>(
     mut stream: &TcpStream,
     max_size: usize,
+    carry: &mut Vec<u8>,
 ) -> Result<(&'a [u8], Request<'a>), ReadRequestError> {
     use std::slice::{from_raw_parts, from_raw_parts_mut};
     use ReadRequestError::*;
@@ -276,15 +281,32 @@ fn read_request<'a>(
     REQUEST_BUFFER.with(|cell| {
         let mut vec = cell.borrow_mut();
 
-        if vec.len() != max_size {
-            vec.resize_with(max_size, MaybeUninit::uninit);
+        // room for the head (at most max_size bytes are ever read for it) and for whatever was carried over
+        let capacity = max_size.max(carry.len());
+        if vec.len() != capacity {
+            vec.resize_with(capacity, MaybeUninit::uninit);
         }
 
         let ptr = vec.as_mut_ptr() as *mut u8;
-        let mut filled = 0;
+        // SAFETY: capacity >= carry.len(); the regions do not overlap
+        unsafe { std::ptr::copy_nonoverlapping(carry.as_ptr(), ptr, carry.len()) };
+        let mut filled = carry.len();
+        carry.clear();
+        let mut unparsed = filled > 0;
 
         loop {
-            if filled == max_size {
+            if unparsed {
+                // SAFETY: only the prefix [..filled] has been written (initialized)
+                let buf = unsafe { from_raw_parts(ptr as *const u8, filled) };
+                // the head has to be complete within the first max_size bytes
+                match Request::parse(&buf[..filled.min(max_size)]) {
+                    Ok(req) => return Ok((buf, req)),
+                    Err(HttpParsingError::UnexpectedEof) => {} // need more bytes, keep reading
+                    Err(_) => return Err(InvalidRequestHead),  // malformed request head
+                }
+            }
+
+            if filled >= max_size {
                 return Err(RequestHeadTooLarge);
             }
 
@@ -297,15 +319,7 @@ fn read_request<'a>(
                 Err(_) => return Err(IOError),
             };
             filled += n;
-
-            // SAFETY: only the prefix [..filled] has been written (initialized) by read()
-            let buf = unsafe { from_raw_parts(ptr as *const u8, filled) };
-
-            match Request::parse(buf) {
-                Ok(req) => return Ok((buf, req)),
-                Err(HttpParsingError::UnexpectedEof) => continue, // need more bytes, keep reading
-                Err(_) => return Err(InvalidRequestHead),         // malformed request head
-            }
+            unparsed = true;
         }
     })
 }
@@ -318,12 +332,15 @@ enum ReadRequestError {
 }
 
 /// Returns "keep-alive" (whether to keep the connection alive for the next request).
+/// `carry`: in, the bytes of this request that were read together with the previous one; out, the bytes read beyond
+/// the end of this request.
 fn handle_one_request(
     stream: &TcpStream,
     response: &mut ResponseHandle<'_>,
     config: &HandlerConfig,
+    carry: &mut Vec<u8>,
 ) -> io::Result<bool> {
-    let (buf, mut request) = match read_request(stream, config.max_request_head) {
+    let (buf, mut request) = match read_request(stream, config.max_request_head, carry) {
         Ok((buf, req)) => (buf, req),
         Err(ReadRequestError::InvalidRequestHead) => {
             response.send0(&Status::BAD_REQUEST, Headers::close())?;
@@ -346,7 +363,7 @@ fn handle_one_request(
 
     // set by the body reader when it is dropped without having reached the end of the body: the next request
     // cannot be located then, and the connection is closed after this response
-    let body_lost = std::cell::Cell::new(false);
+    let after = crate::body_reader::BodyAftermath::default();
 
     if let Some(hook) = &config.pre_routing_hook {
         match (hook)(&mut request, response) {
@@ -357,11 +374,12 @@ fn handle_one_request(
                     &buf[request.buf_offset..],
                     stream,
                     &request.headers,
-                    &body_lost,
+                    &after,
                 ));
+                *carry = after.carry.take();
                 return Ok(response.keep_alive
                     && !request.headers.is_connection_close()
-                    && !body_lost.get());
+                    && !after.lost.get());
             }
         }
     }
@@ -374,7 +392,7 @@ fn handle_one_request(
         &buf[request.buf_offset..],
         stream,
         &request.headers,
-        &body_lost,
+        &after,
     );
     let ctx = RequestContext {
         method: request.method,
@@ -387,8 +405,9 @@ fn handle_one_request(
 
     let client_requested_close = ctx.headers.is_connection_close();
     (matched_route.route)(ctx, response)?;
-    if client_requested_close || body_lost.get() {
+    if client_requested_close || after.lost.get() {
         return Ok(false);
     }
+    *carry = after.carry.take();
     Ok(response.keep_alive)
 }
